@@ -12,14 +12,14 @@ Open Scope N_scope.
 Definition os_holders (o : oneshot) : list N := match o with OSPending ws => ws | OSFired _ => [] end.
 Definition item_holders (i : cbitem) : list N := match i with CbWaiter w | CbChain w => [w] | CbChainSilent => [] end.
 Definition items_holders (l : list cbitem) : list N := concat (map item_holders l).
-Definition cmd_holders (c : cmdrec) : list N := match c with CmdC _ w _ => [w] | CmdS _ _ _ => [] end.
+Definition cmd_holders (c : cmdrec) : list N := match c with CmdC _ w _ | CmdB w => [w] | CmdS _ _ _ => [] end.
 Definition tholders {V} (h : V -> list N) (t : list (N * V)) : list N := concat (map (fun p => h (snd p)) t).
 Definition holders (s : xstate) : list N :=
   tholders os_holders (wbs s) ++ tholders os_holders (wcs s) ++ tholders items_holders (cclosing s)
   ++ tholders items_holders (sclosing s) ++ concat (map cmd_holders (cmds s)).
 Definition done_ids (es : list nev) : list N := map fst (dones es).
 Definition req_id (o : op) : list N :=
-  match o with OWhenBuilt _ w | OWhenClosed _ w | OCClose _ w | OSClose _ w => [w] | _ => [] end.
+  match o with OWhenBuilt _ w | OWhenClosed _ w | OCClose _ w | OSClose _ w | OBuild _ w => [w] | _ => [] end.
 
 Lemma countN_concat_map {A} (w : N) (f : A -> list N) l :
   countN w (concat (map f l)) = fold_right (fun x acc => (countN w (f x) + acc)%nat) O l.
@@ -191,7 +191,7 @@ Proof. now rewrite map_app, concat_app, countN_app. Qed.
 Theorem conservation s o s' es (w : N) : x_op s o = Some (s', es) ->
   (countN w (holders s) + countN w (req_id o) = countN w (holders s') + countN w (done_ids es))%nat.
 Proof.
-  rewrite !holders_count. destruct o as [e|l|l|ob l|ob l|ob l|ob l|ob wt|ob wt|ob wt|ob wt|]; cbn [x_op req_id].
+  rewrite !holders_count. destruct o as [e|l|l|ob l|ob l|ob l|ob l|ob wt|ob wt|ob wt|ob wt| |rs wt|id|]; cbn [x_op req_id].
   - destruct e as [id st path kw|id st cid host port kw]; intros H; cbn [countN].
     + rewrite (conservation_circ _ _ _ _ _ _ _ w H). lia.
     + rewrite (conservation_stream _ _ _ _ _ _ _ _ _ w H). lia.
@@ -276,7 +276,7 @@ Proof.
         cbn [items_holders item_holders cmd_holders map concat app done_ids dones countN] in *. lia. }
     destruct (s_state x) as [[]|]; try exact G; intros [= <- <-]; cbn [done_ids dones map concat app fst countN]; lia.
   - (* acknowledgement *)
-    destruct (cmds s) as [|[ob wt ok|ob wt ok] q] eqn:Ec.
+    destruct (cmds s) as [|[ob wt ok|ob wt ok|wt] q] eqn:Ec; [| | |discriminate].
     + intros [= <- <-]. cbn. lia.
     + destruct ok.
       * pose proof (count_tset items_holders [] eq_refl w (cclosing s) ob) as T.
@@ -294,6 +294,25 @@ Proof.
       destruct (tfind (sclosing s) ob) as [items|]; [|cbn; lia].
       specialize (T (items ++ [CbChainSilent])). rewrite items_holders_app, countN_app in T.
       cbn [items_holders item_holders map concat app done_ids dones countN] in *. lia.
+  - (* build_circuit *)
+    intros [= <- <-]. unfold hcount; cbn [wbs wcs cclosing sclosing cmds]. rewrite count_cmds_app.
+    assert (D : done_ids (NCmd 2 (N.of_nat (length rs)) :: map (NCmd 3) rs) = []).
+    { unfold done_ids, dones. cbn [map concat app]. induction rs as [|r t IH]; [reflexivity | exact IH]. }
+    rewrite D. cbn [cmd_holders map concat app countN]. lia.
+  - (* 250 EXTENDED id *)
+    destruct (cmds s) as [|[ob wt ok|ob wt ok|wt] q] eqn:Ec; try discriminate.
+    destruct (x_circ s id CExtended [] []) as [[s1 es1]|] eqn:X; [|discriminate]. intros [= <- <-].
+    pose proof (conservation_circ _ _ _ _ _ _ _ w X) as H.
+    assert (Ec1 : cmds s1 = cmds s).
+    { revert X. unfold x_circ. destruct (step (base s) (ECirc id CExtended [] [])); [|discriminate].
+      destruct (kfind fst id (circuits (base s))); intros [= <- _]; reflexivity. }
+    unfold hcount in *; cbn [wbs wcs cclosing sclosing cmds] in *. rewrite Ec1, Ec in H.
+    rewrite done_ids_app. cbn [cmd_holders map concat app done_ids dones fst countN] in *. rewrite countN_app. cbn [countN].
+    rewrite Ec. cbn [cmd_holders map concat app countN]. destruct (w =? wt); lia.
+  - (* 5xx for EXTENDCIRCUIT *)
+    destruct (cmds s) as [|[ob wt ok|ob wt ok|wt] q] eqn:Ec; try discriminate. intros [= <- <-].
+    unfold hcount; cbn [wbs wcs cclosing sclosing cmds]; rewrite Ec.
+    cbn [cmd_holders map concat app done_ids dones fst countN]. cbn [countN]. destruct (w =? wt); lia.
 Qed.
 
 Lemma xrun_from_bound ops : forall s tr (w : N), xrun_from s ops = Some tr ->
@@ -331,14 +350,19 @@ Proof.
   pose proof (countN_In_pos _ _ Hin). apply countN_pos_In. lia.
 Qed.
 
+Lemma lstep_ev_used ls e ls' : lstep_ev ls e = Some ls' -> l_used ls' = l_used ls.
+Proof.
+  unfold lstep_ev. destruct (negb (ev_legal (l_tv ls) e)); [discriminate|].
+  destruct e as [id st path kw|id st cid host port kw].
+  - destruct (locate id (l_cdict ls) (l_nc ls)) as [f n]. now intros [= <-].
+  - destruct (locate id (l_sdict ls) (l_ns ls)) as [f n]. now intros [= <-].
+Qed.
+
 Lemma lstep_used ls o ls' : lstep ls o = Some ls' ->
   l_used ls' = req_id o ++ l_used ls /\ (forall w, In w (req_id o) -> ~ In w (l_used ls)).
 Proof.
-  destruct o as [e|l|l|ob l|ob l|ob l|ob l|ob wt|ob wt|ob wt|ob wt|]; cbn [lstep req_id app].
-  - destruct (negb (ev_legal (l_tv ls) e)); [discriminate|].
-    destruct e as [id st path kw|id st cid host port kw].
-    + destruct (locate id (l_cdict ls) (l_nc ls)) as [f n]. intros [= <-]. cbn. split; [reflexivity | tauto].
-    + destruct (locate id (l_sdict ls) (l_ns ls)) as [f n]. intros [= <-]. cbn. split; [reflexivity | tauto].
+  destruct o as [e|l|l|ob l|ob l|ob l|ob l|ob wt|ob wt|ob wt|ob wt| |rs wt|id|]; cbn [lstep req_id app].
+  - intros H. split; [now apply (lstep_ev_used ls e) | tauto].
   - intros [= <-]. cbn. split; [reflexivity | tauto].
   - intros [= <-]. cbn. split; [reflexivity | tauto].
   - destruct (ob <? l_nc ls); [|discriminate]. intros [= <-]. cbn. split; [reflexivity | tauto].
@@ -352,10 +376,18 @@ Proof.
   - destruct (ob <? l_nc ls); cbn [andb]; [|discriminate]. destruct (memN wt (l_used ls)) eqn:M; [discriminate|].
     intros [= <-]. cbn. split; [reflexivity|]. intros w [<-|[]]. now apply memN_false.
   - destruct (ob <? l_nc ls); cbn [andb]; [|discriminate]. destruct (memN wt (l_used ls)) eqn:M; [discriminate|].
+    cbn [negb andb]. destruct (l_nb ls =? 0); [|discriminate].
     intros [= <-]. cbn. split; [reflexivity|]. intros w [<-|[]]. now apply memN_false.
   - destruct (ob <? l_ns ls); cbn [andb]; [|discriminate]. destruct (memN wt (l_used ls)) eqn:M; [discriminate|].
+    cbn [negb andb]. destruct (l_nb ls =? 0); [|discriminate].
     intros [= <-]. cbn. split; [reflexivity|]. intros w [<-|[]]. now apply memN_false.
-  - intros [= <-]. split; [reflexivity | cbn; tauto].
+  - destruct (l_nb ls =? 0); [|discriminate]. intros [= <-]. split; [reflexivity | cbn; tauto].
+  - destruct (l_ncl ls =? 0); cbn [andb]; [|discriminate]. destruct (memN wt (l_used ls)) eqn:M; [discriminate|].
+    intros [= <-]. cbn. split; [reflexivity|]. intros w [<-|[]]. now apply memN_false.
+  - destruct ((0 <? l_nb ls) && ext_ok (l_tv ls) id); [|discriminate].
+    destruct (lstep_ev ls (ext_event id)) as [l1|] eqn:E; [|discriminate]. intros [= <-]. cbn [option_map with_q l_used].
+    split; [now apply (lstep_ev_used ls (ext_event id)) | tauto].
+  - destruct (0 <? l_nb ls); [|discriminate]. intros [= <-]. split; [reflexivity | cbn; tauto].
 Qed.
 
 Lemma legal8_fresh ops : forall ls, legal8_from ls ops = true ->
